@@ -424,7 +424,7 @@ func (st *State) jsonMarshal(iv IfaceV) Value {
 			return s
 		}
 	case *types.Map:
-		m := iv.V.(*MapObj)
+		m := st.mapR(iv.V.(MapRef))
 		gm := map[string]interface{}{}
 		for i, k := range m.Keys {
 			v := m.Vals[i].(IfaceV)
@@ -498,10 +498,9 @@ func (st *State) jsonUnmarshal(data SliceV, target IfaceV) Value {
 	case *types.Map:
 		gm := map[string]int{}
 		err := json.Unmarshal(raw, &gm)
-		m := st.loadAt(addr, pt.Elem()).(*MapObj)
-		if m == nil {
-			m = &MapObj{KT: T.Key(), VT: T.Elem()}
-			st.handleFor(m)
+		m := st.loadAt(addr, pt.Elem()).(MapRef)
+		if m == 0 {
+			m = st.newMap(T.Key(), T.Elem())
 			st.storeAt(addr, pt.Elem(), m)
 		}
 		ks := make([]string, 0, len(gm))
